@@ -20,6 +20,8 @@ LEVEL = 'exploration'
 BUDGET = {'quick': 45, 'thorough': 420}
 # deterministic sub-checks repeated in a `python -O` child (core.optimized_child)
 OPT_SUBS = ('conv/exhaustive', 'compat/chain', 'predicate/table', 'conv/suffix', 'predicate/malformed')
+# documented call interface the generated calls rely on (vcheck/callstyle.py)
+INTERFACE = [('oslo_utils.versionutils', None)]
 RULE = ('conv/*: every component tuple of length 1..5 over {0,1,9,10,99,100,'
         '999} with a non-zero head (exhaustive: round trip for str and tuple '
         'input, convert_version_to_tuple, and strict monotonicity of the '
@@ -519,6 +521,21 @@ def check_compat(vu, case, sub):
                         'PEP 440 says %r (requested %s, current %s)'
                         % (case['req_s'], case['cur_s'], case['same_major'],
                            got, want, canonical(req), canonical(cur)), case)
+    # the documented signature is is_compatible(requested_version,
+    # current_version, same_major): the third argument passed positionally
+    # is the same call
+    try:
+        got_pos = vu.is_compatible(case['req_s'], case['cur_s'],
+                                   case['same_major'])
+    except Exception as e:
+        raise Violation(sub, 'is_compatible(%r, %r, %r) [positional] raised '
+                        '%s' % (case['req_s'], case['cur_s'],
+                                case['same_major'], type(e).__name__), case)
+    if got_pos is not want:
+        raise Violation(sub, 'is_compatible(%r, %r, %r) [same_major passed '
+                        'positionally] -> %r, expected %r'
+                        % (case['req_s'], case['cur_s'], case['same_major'],
+                           got_pos, want), case)
     if not case['same_major']:
         # default argument is same_major=True: observe it through the public
         # default as well when the majors differ
@@ -874,7 +891,8 @@ def tasks(tier, seed):
     q = tier == 'quick'
     # short tasks first; then at most 13 long searches so that every family
     # starts at once on 16 workers and a tight budget cuts them all alike
-    out = [Task('conv/exhaustive', conv_exhaustive),
+    out = [Task('preempt', preempt),
+           Task('conv/exhaustive', conv_exhaustive),
            Task('compat/chain', compat_table),
            Task('predicate/table', predicate_table),
            Task('conv/suffix', conv_suffix_invalid,
@@ -902,11 +920,53 @@ def tasks(tier, seed):
     return out
 
 
+def preempt(col):
+    """Schedules (core.preempt_calls): one VersionPredicate object shared
+    by two callers, and the other helpers against each other, under every
+    single preemption inside versionutils."""
+    from oslo_utils import versionutils as vu
+    sub = 'preempt'
+    box = {}
+
+    def fresh():
+        box['p'] = vu.VersionPredicate('>=1.0, <2.0, !=1.5')
+        box['q'] = vu.VersionPredicate('==3.1')
+
+    T, F = ('value', True), ('value', False)
+    calls = [
+        ('p.satisfied_by(1.4)', lambda: box['p'].satisfied_by('1.4'), T),
+        ('p.satisfied_by(2.5)', lambda: box['p'].satisfied_by('2.5'), F),
+        ('p.satisfied_by(1.9)', lambda: box['p'].satisfied_by('1.9'), T),
+        ('p.satisfied_by(0.9)', lambda: box['p'].satisfied_by('0.9'), F),
+        ('q.satisfied_by(3.1)', lambda: box['q'].satisfied_by('3.1'), T),
+        ('p.satisfied_by(1.5)', lambda: box['p'].satisfied_by('1.5'), F),
+        ('is_compatible(1.0, 1.5)', lambda: vu.is_compatible('1.0', '1.5'),
+         T),
+        ('is_compatible(2.0, 1.0)', lambda: vu.is_compatible('2.0', '1.0'),
+         F),
+        ('is_compatible(1.0, 2.0, same_major=False)',
+         lambda: vu.is_compatible('1.0', '2.0', same_major=False), T),
+        ('to_int(1.2.3)', lambda: vu.convert_version_to_int('1.2.3'),
+         ('value', 1002003)),
+        ('to_str(10020030)', lambda: vu.convert_version_to_str(10020030),
+         ('value', '10.20.30')),
+        ('to_int(2.0rc1)', lambda: vu.convert_version_to_int('2.0rc1'),
+         ('value', 2000)),
+        ('VersionPredicate(malformed)',
+         lambda: vu.VersionPredicate('~=1.0'), ('raise', 'ValueError')),
+    ]
+    core.preempt_calls(col, sub, ['oslo_utils.versionutils'], calls,
+                       before_each=fresh)
+    col.exhaustive.setdefault(sub, False)
+
+
 def replay(rec):
     from oslo_utils import versionutils as vu
     case = rec['case']
     sub = rec.get('sub', 'replay')
     kind = case.get('kind')
+    if case.get('preempt_calls'):
+        return preempt(core.Collector())
     if kind == 'roundtrip':
         check_roundtrip(vu, tuple(case['v']), sub)
     elif kind == 'order':
